@@ -1,5 +1,6 @@
 import Driver.Common
 import CoapVerif.Model.Blockwise
+import CoapVerif.Model.BlockwiseObserve
 import CoapVerif.Spec.Blockwise
 /-!
 Driver for C04.  Input lines (one case = `cfg` … `end`):
@@ -14,6 +15,11 @@ Driver for C04.  Input lines (one case = `cfg` … `end`):
   inject <A|B> <code> <tok> <b1|-> <b2|-> <s1|-> <s2|-> <etag|-> <other|-> <seed> <off> <len>
                                    the network hands a crafted message to that side (payload = bytes [off, off+len) of body(seed))
   sleep <ms>     tick <A|B>     settle (reports `queue <n>`: messages in flight)     end
+  observe <A|B> <tok>              the registered request of that side for <tok> is an active observation: the layer's
+                                   getSentRequestFromOutside serves it (code, token, options)
+  fresh <tok>                      the next token message.GetToken returns (an 8-byte token); without it the tokens are
+                                   freshBase, freshBase+1, … (17361376563513262080 + i), on both sides of the tie
+  resource <code> <len> <seed> <etag|-> <other|->    how B's application answers a request whose token has no `reg B`
 
 Output: the events observed after the operation, ` ; ` separated (`none` if nothing happened):
   wire <S> <msg> · arr <S> <msg> · dlv <S> <msg> · ret <tok> ok <msg> · ret <tok> err · wret <S> <tok> ok|err · err <S>
@@ -23,7 +29,7 @@ with <msg> = <code> <tok> <b1> <b2> <s1> <s2> <etag> <other> <len> <fnv>, blocks
 `model`: events of the model (`Model/Blockwise.lean`).  `judge`: `<input> | <observed>` evaluated by `Spec/Blockwise.lean`.
 -/
 namespace Driver.C04
-open CoapVerif CoapVerif.Model.Blockwise
+open CoapVerif CoapVerif.Model.Blockwise CoapVerif.Model.BlockwiseObserve
 
 def bodyByte (seed i : Nat) : UInt8 := UInt8.ofNat ((i * 167 + (i / 256) * 59 + seed * 101 + 13) % 256)
 def genBody (seed off len : Nat) : List UInt8 := (List.range len).map (fun j => bodyByte seed (off + j))
@@ -87,13 +93,35 @@ structure MState where
   regs : List Reg := []
   keys : List Nat := [0]
   active : Bool := false
+  observed : List (Side × Nat) := []
+  freshQ : List Nat := []
+  drawn : Nat := 0
+  resource : Option Msg := none
 
 def lookupReg (regs : List Reg) (s : Side) (tok : Nat) : Option Msg :=
   (regs.reverse.find? (fun r => r.side == s && r.msg.tok == tok)).map (·.msg)
 
-/-- B's application: answers a request with the message registered for its token -/
-def mkAppB (regs : List Reg) : App := fun m =>
-  if isRequest m.code then (lookupReg regs .B m.tok).map (fun r => { r with tok := m.tok }) else none
+/-- B's application: answers a request with the message registered for its token, else with its default resource -/
+def mkAppB (regs : List Reg) (resource : Option Msg := none) : App := fun m =>
+  if isRequest m.code then
+    match lookupReg regs .B m.tok with
+    | some r => some { r with tok := m.tok }
+    | none => resource.map (fun r => { r with tok := m.tok })
+  else none
+
+def freshBase : Nat := 17361376563513262080     -- 0xF0F0000000000000
+
+/-- the observation table of a side: its registered request for the token, without body, if `observe` marked it -/
+def outsideOf (s : MState) (sd : Side) : Outside := fun tok =>
+  if s.observed.any (fun p => p.1 == sd && p.2 == tok) then (lookupReg s.regs sd tok).map (fun r => { r with body := [] }) else none
+
+def toO (s : MState) : OWorld :=
+  { w := s.w, outA := outsideOf s .A, outB := outsideOf s .B, freshQ := s.freshQ, freshBase := freshBase, drawn := s.drawn }
+
+/-- back from the observe-aware world; tokens that were drawn become keys the cache sizes are counted over -/
+def fromO (s : MState) (o : OWorld) : MState :=
+  let used := (s.freshQ.take (s.freshQ.length - o.freshQ.length)) ++ (List.range (o.drawn - s.drawn)).map (fun i => freshBase + s.drawn + i)
+  { s with w := o.w, freshQ := o.freshQ, drawn := o.drawn, keys := used.foldl (fun ks k => if ks.contains k then ks else k :: ks) s.keys }
 
 def countKeys (c : Cache) (keys : List Nat) : Nat := (keys.filter (fun k => (c k).isSome)).length
 
@@ -104,6 +132,7 @@ def ms (n : Nat) : Int := (n : Int) * 1000000
 
 def modelStep (s : MState) (line : String) : MState × String :=
   let fin (w : World) (evs : List Event) : MState × String := ({ s with w := w }, joinEvents (evs.map fmtEvent))
+  let finO (o : OWorld) (evs : List Event) : MState × String := (fromO s o, joinEvents (evs.map fmtEvent))
   match words line with
   | ["cfg", sa, ma, ea, sb, mb, eb] =>
     match sa.toNat?, ma.toNat?, ea.toNat?, sb.toNat?, mb.toNat?, eb.toNat? with
@@ -116,7 +145,7 @@ def modelStep (s : MState) (line : String) : MState × String :=
     | some sd, some tok, some code, some len, some seed, some etag, some other =>
       let m : Msg := { code := code, tok := tok, etag := etag, other := other, body := genBody seed 0 len }
       let regs := s.regs ++ [⟨sd, m⟩]
-      ({ s with regs := regs, keys := if s.keys.contains tok then s.keys else tok :: s.keys, w := { s.w with appB := mkAppB regs } }, "ok")
+      ({ s with regs := regs, keys := if s.keys.contains tok then s.keys else tok :: s.keys, w := { s.w with appB := mkAppB regs s.resource } }, "ok")
     | _, _, _, _, _, _, _ => (s, "bad-op")
   | ["do", tok, tmo] =>
     match tok.toNat?, tmo.toNat? with
@@ -129,16 +158,16 @@ def modelStep (s : MState) (line : String) : MState × String :=
     match parseSide sd, tok.toNat? with
     | some sd, some tok =>
       match lookupReg s.regs sd tok with
-      | some r => let (w, evs) := s.w.startWrite sd r; fin w evs
+      | some r => let (o, evs) := (toO s).startWrite sd r; fin o.w evs
       | none => (s, "bad-op")
     | _, _ => (s, "bad-op")
-  | ["net", "deliver"] => let (w, evs) := s.w.fault .deliver; fin w evs
-  | ["net", "dup"] => let (w, evs) := s.w.fault .dup; fin w evs
-  | ["net", "drop"] => let (w, evs) := s.w.fault .drop; fin w evs
-  | ["net", "swap"] => let (w, evs) := s.w.fault .swap; fin w evs
+  | ["net", "deliver"] => let (o, evs) := (toO s).fault .deliver; finO o evs
+  | ["net", "dup"] => let (o, evs) := (toO s).fault .dup; finO o evs
+  | ["net", "drop"] => let (o, evs) := (toO s).fault .drop; finO o evs
+  | ["net", "swap"] => let (o, evs) := (toO s).fault .swap; finO o evs
   | ["net", "replay", k] =>
     match k.toNat? with
-    | some k => let (w, evs) := s.w.fault (.replay k); fin w evs
+    | some k => let (o, evs) := (toO s).fault (.replay k); finO o evs
     | none => (s, "bad-op")
   | ["inject", sd, code, tok, b1, b2, s1, s2, etag, other, seed, off, len] =>
     match parseSide sd, code.toNat?, tok.toNat?, parseBlkRaw b1, parseBlkRaw b2, parseOptNat s1, parseOptNat s2 with
@@ -148,10 +177,27 @@ def modelStep (s : MState) (line : String) : MState × String :=
         let m : Msg := { code := code, tok := tok, block1 := b1, block2 := b2, size1 := s1, size2 := s2, etag := etag,
                          other := other, body := genBody seed off len }
         let s := { s with keys := if s.keys.contains tok then s.keys else tok :: s.keys }
-        let (w, evs) := s.w.recv ⟨sd, m⟩
-        ({ s with w := w }, joinEvents (evs.map fmtEvent))
+        let (o, evs) := (toO s).recv ⟨sd, m⟩
+        (fromO s o, joinEvents (evs.map fmtEvent))
       | _, _, _, _, _ => (s, "bad-op")
     | _, _, _, _, _, _, _ => (s, "bad-op")
+  | ["observe", sd, tok] =>
+    match parseSide sd, tok.toNat? with
+    | some sd, some tok =>
+      if (lookupReg s.regs sd tok).isSome then ({ s with observed := (sd, tok) :: s.observed }, "ok") else (s, "bad-op")
+    | _, _ => (s, "bad-op")
+  | ["fresh", tok] =>
+    match tok.toNat? with
+    | some tok =>
+      if tok = 0 ∨ tok ≥ 18446744073709551616 then (s, "bad-op") else
+      ({ s with freshQ := s.freshQ ++ [tok], keys := if s.keys.contains tok then s.keys else tok :: s.keys }, "ok")
+    | none => (s, "bad-op")
+  | ["resource", code, len, seed, etag, other] =>
+    match code.toNat?, len.toNat?, seed.toNat?, parseEtag etag, parseOther other with
+    | some code, some len, some seed, some etag, some other =>
+      let m : Msg := { code := code, etag := etag, other := other, body := genBody seed 0 len }
+      ({ s with resource := some m, w := { s.w with appB := mkAppB s.regs (some m) } }, "ok")
+    | _, _, _, _, _ => (s, "bad-op")
   | ["sleep", d] =>
     match d.toNat? with
     | some d =>
@@ -212,6 +258,34 @@ def parseObserved (s : String) : Option (List Ev) :=
     | "sizes" :: _ => some acc
     | _ => none) (some [])
 
+/-- token under which B's default resource is kept among the judge's `sents` (no token of the line protocol is that large) -/
+def resTok : Nat := 2 ^ 200
+
+/-- RFC 7959 §2.6: the rest of a block-wise notification is fetched with GETs under a NEW token.  Such a request is not
+    supplied by an application; when one is handed to B's application (`dlv B` of a request whose token nobody registered)
+    it stands for "the observation's request without its Observe option", and what B's application answers it with is its
+    current resource.  The two are entered into the judge's registry at that moment, so that the request is held against
+    the observation it belongs to (`exact`: it must equal a registered observation request minus Observe) and the blocks
+    B then puts on the wire against the resource (`slice`). -/
+def followUps (sents : List Sent) (evs : List Ev) : List Ev :=
+  evs.flatMap (fun e =>
+    match e with
+    | .deliver 1 m =>
+      if Spec.Blockwise.classOf m.code != .request then [e] else
+      let req : List Ev :=
+        if sents.any (fun x => x.side == 0 && x.tok == m.tok) then [] else
+        match sents.find? (fun x => x.side == 0 && x.code == m.code && x.other.any (fun o => o.1 == 6) &&
+                                    x.other.filter (fun o => o.1 != 6) == m.other && x.etag == m.etag) with
+        | some x => [Ev.sent { x with tok := m.tok, other := m.other, body := [] }]
+        | none => []
+      let res : List Ev :=
+        if sents.any (fun x => x.side == 1 && x.tok == m.tok) then [] else
+        match sents.reverse.find? (fun x => x.side == 1 && x.tok == resTok) with
+        | some x => [Ev.sent { x with tok := m.tok }]
+        | none => []
+      req ++ res ++ [e]
+    | _ => [e])
+
 def judgeLine (s : JState) (line : String) : JState × String :=
   let (inp, obs) := match line.splitOn " | " with
     | [i] => (i, "none")
@@ -224,6 +298,10 @@ def judgeLine (s : JState) (line : String) : JState × String :=
       let sd ← parseSide sd; let tok ← tok.toNat?; let code ← code.toNat?; let len ← len.toNat?; let seed ← seed.toNat?
       let etag ← parseEtag etag; let other ← parseOther other
       some [Ev.sent { side := sideNat sd, tok := tok, code := code, etag := etag, other := other, body := genBody seed 0 len }]
+    | ["resource", code, len, seed, etag, other] => do
+      let code ← code.toNat?; let len ← len.toNat?; let seed ← seed.toNat?
+      let etag ← parseEtag etag; let other ← parseOther other
+      some [Ev.sent { side := 1, tok := resTok, code := code, etag := etag, other := other, body := genBody seed 0 len }]
     | ["do", tok, _] => tok.toNat?.map (fun t => [Ev.started t])
     | ["net", "deliver"] => some []
     | "net" :: _ => some [Ev.disturbed]
@@ -244,6 +322,7 @@ def judgeLine (s : JState) (line : String) : JState × String :=
   let s0 : JState := match words inp with | "cfg" :: _ => {} | _ => s
   match pre, parseObserved obs with
   | some pre, some evs =>
+    let evs := followUps s0.sents evs
     let (s', verdict) := (Ev.quiet :: pre ++ evs ++ post).foldl (fun (acc : JState × Option String) e =>
       match acc.2 with
       | some _ => acc
